@@ -199,7 +199,7 @@ func init() {
 }
 
 func init() {
-	mutant("goaway-body-kept-after-release", "no-use-after-release", "conn.go", "				c.closeRef = ga.stream\n				c.state = connStateClosed\n			}\n\n			break loop\n		}", "				c.closeRef = ga.stream\n				c.state = connStateClosed\n\n				break loop\n			}\n		}")
+	mutant("goaway-body-kept-after-release", "no-use-after-release", "conn.go", "				c.failAbove(ga.stream)\n			}\n\n			break loop\n		}", "				c.failAbove(ga.stream)\n\n				break loop\n			}\n		}")
 }
 
 // Variants for the rules written after the mutation sweep (rules_gap.go, conn-lifecycle).
@@ -461,4 +461,11 @@ func init() {
 
 func init() {
 	mutant("resume-skips-graceful-close", "frame-step-order", "serverConn.go", "				if sc.sendData(strm) {\n					strm.SetState(StreamStateClosed)\n				}\n			}\n\n			if strm.State() == StreamStateClosed {", "				if sc.sendData(strm) {\n					strm.SetState(StreamStateClosed)\n					closeStream(strm)\n\n					continue\n				}\n			}\n\n			if strm.State() == StreamStateClosed {")
+}
+
+func init() {
+	mutant("client-stops-at-last-stream-frame", "client-goaway-drain", "conn.go", "	return err != nil && errors.Is(err, FlowControlError)\n}", "	if err != nil && errors.Is(err, FlowControlError) {\n		return true\n	}\n\n	return c.state == connStateClosed && fr.Stream() == c.closeRef\n}")
+	mutant("client-drained-ignores-lower-streams", "client-goaway-drain", "conn.go", "		if id <= c.closeRef {\n			return false\n		}", "		if id == c.closeRef {\n			return false\n		}")
+	mutant("client-goaway-leaves-disclaimed-waiting", "client-goaway-drain", "conn.go", "				c.failAbove(ga.stream)\n", "")
+	mutant("client-fails-promised-streams-too", "retryable-pre-wire", "conn.go", "		if id > last {\n			ids = append(ids, id)\n		}", "		if id >= last {\n			ids = append(ids, id)\n		}")
 }
